@@ -501,6 +501,15 @@ def implicit_residual_corpus(ctx):
         dev = float(np.max(np.abs(got - ex_f) / (np.abs(ex_f) + 1e-3 * np.max(np.abs(ex_f)))))
         ctx.dev("residual_route.implicit", dev, 1e-9, case=dict(desc, got=got.tolist(), exact=[str(x) for x in exact]), sig="residual:implicit:coeffs",
                 what=f"coefficients of the implicit problem deviate by {dev:.2e} from the exact (rational) values")
+        # the same with the routine's own default least-squares solver (tolerance 1e-6: compared to 1e-5)
+        try:
+            out_d, _ = probdiffeq.jetexpand_residual(num=num)(res, [jnp.asarray([float(u0)])], t=float(t0))
+            got_d = np.array([float(np.asarray(x).reshape(-1)[0]) for x in out_d])
+            dev_d = float(np.max(np.abs(got_d - ex_f) / (np.abs(ex_f) + 1e-3 * np.max(np.abs(ex_f))))) if len(got_d) == len(ex_f) else float("inf")
+            ctx.dev("residual_route.implicit.default-solver", dev_d, 1e-5, case=dict(desc, nlstsq="default", got=got_d.tolist(), exact=[str(x) for x in exact]),
+                    sig="residual:implicit:coeffs:default-solver", what=f"coefficients of the implicit problem (default least-squares solver) deviate by {dev_d:.2e} from the exact values")
+        except Exception as ex:  # noqa: BLE001
+            ctx.violation("residual:implicit:raised", f"jetexpand_residual (default solver) crashed on a valid implicit problem: {type(ex).__name__}: {str(ex)[:300]}", desc)
 
 
 def run(ctx):
